@@ -1,13 +1,445 @@
 package main
 
-// FrameResult is one obligation decided by the goframe effect pass.
+import (
+	"fmt"
+	"go/ast"
+	"go/constant"
+	"go/token"
+	"go/types"
+	"os"
+	"regexp/syntax"
+	"sort"
+	"strings"
+
+	"golang.org/x/tools/go/packages"
+)
+
+// FrameResult is one obligation decided without an SMT solver: by the goframe
+// effect pass (frame:*) or by a ground evaluation over the real tables (ground:*).
 type FrameResult struct {
 	Name    string
 	OK      bool
 	Detail  string
 	Witness string
+	Props   []string
+	Backend string
 }
 
-func (u *Universe) frameObligations(prop string) []FrameResult { return nil }
+var frameTrustedUsed = map[string]bool{}
 
-func frameTrusted(prop string) []string { return nil }
+func frameTrusted(prop string) []string { return sortStrings(frameTrustedUsed) }
+
+func (u *Universe) frameObligations(prop string) []FrameResult {
+	var out []FrameResult
+	add := func(rs ...FrameResult) {
+		for _, r := range rs {
+			if prop == "" || hasProp(r.Props, prop) {
+				out = append(out, r)
+			}
+		}
+	}
+	want := func(ps ...string) bool {
+		if prop == "" {
+			return true
+		}
+		for _, p := range ps {
+			if p == prop {
+				return true
+			}
+		}
+		return false
+	}
+	if want("C20") {
+		add(u.groundGoFlagTables()...)
+		add(u.groundGarbleFlagRegexp())
+	}
+	if want("C16", "C12") {
+		add(u.groundGlobalInit("nameBase64", "base64.URLEncoding.WithPadding(base64.NoPadding)", []string{"C16", "C12"}))
+	}
+	add(u.effectObligations(prop)...)
+	sort.Slice(out, func(i, j int) bool { return out[i].Name < out[j].Name })
+	return out
+}
+
+func (u *Universe) mainPkg() *packages.Package { return u.pkgs[garblePath] }
+
+// ---- ground: the go command's flags versus garble's tables ----
+
+type goFlag struct {
+	name   string
+	isBool bool
+	where  string
+}
+
+var goFlagCache []goFlag
+var goFlagErr error
+
+// goCommandFlags extracts, from the cmd/go sources of the installed GOROOT, every
+// flag registered for go build / go test / go run together with whether it is
+// boolean: BoolVar/Bool, or Var/Func with a value type that has IsBoolFlag.
+func (u *Universe) goCommandFlags() ([]goFlag, error) {
+	if goFlagCache != nil || goFlagErr != nil {
+		return goFlagCache, goFlagErr
+	}
+	cfg := &packages.Config{
+		Mode: packages.NeedName | packages.NeedFiles | packages.NeedSyntax | packages.NeedTypes | packages.NeedTypesInfo | packages.NeedImports | packages.NeedDeps,
+		Dir:  u.repo,
+		Env:  append(os.Environ(), "GOFLAGS=-mod=mod", "GOPROXY=off", "GOSUMDB=off", "GOTOOLCHAIN=local"),
+	}
+	pkgs, err := packages.Load(cfg, "cmd/go/internal/work", "cmd/go/internal/base", "cmd/go/internal/test", "cmd/go/internal/run")
+	if err != nil {
+		goFlagErr = err
+		return nil, err
+	}
+	seen := map[string]bool{}
+	for _, p := range pkgs {
+		if len(p.Errors) > 0 {
+			goFlagErr = fmt.Errorf("%s: %v", p.PkgPath, p.Errors[0])
+			return nil, goFlagErr
+		}
+		for _, f := range p.Syntax {
+			ast.Inspect(f, func(n ast.Node) bool {
+				call, ok := n.(*ast.CallExpr)
+				if !ok {
+					return true
+				}
+				sel, ok := call.Fun.(*ast.SelectorExpr)
+				if !ok {
+					return true
+				}
+				s, ok := p.TypesInfo.Selections[sel]
+				if !ok {
+					return true
+				}
+				fn, ok := s.Obj().(*types.Func)
+				if !ok || fn.Pkg() == nil || fn.Pkg().Path() != "flag" {
+					return true
+				}
+				if !strings.Contains(s.Recv().String(), "flag.FlagSet") || len(call.Args) < 2 {
+					return true
+				}
+				var nameArg ast.Expr
+				isBool := false
+				switch fn.Name() {
+				case "BoolVar":
+					nameArg, isBool = call.Args[1], true
+				case "Bool":
+					nameArg, isBool = call.Args[0], true
+				case "StringVar", "IntVar", "DurationVar", "Int64Var", "UintVar", "Float64Var", "TextVar":
+					nameArg = call.Args[1]
+				case "String", "Int", "Duration", "Int64", "Uint", "Float64":
+					nameArg = call.Args[0]
+				case "Func":
+					nameArg = call.Args[0]
+				case "BoolFunc":
+					nameArg, isBool = call.Args[0], true
+				case "Var":
+					nameArg = call.Args[1]
+					vt := p.TypesInfo.TypeOf(call.Args[0])
+					if vt != nil {
+						if m, _, _ := types.LookupFieldOrMethod(vt, true, p.Types, "IsBoolFlag"); m != nil {
+							isBool = true
+						}
+					}
+				default:
+					return true
+				}
+				tv, ok := p.TypesInfo.Types[nameArg]
+				if !ok || tv.Value == nil || tv.Value.Kind() != constant.String {
+					return true
+				}
+				name := "-" + constant.StringVal(tv.Value)
+				if strings.HasPrefix(name, "-test.") {
+					return true
+				}
+				pos := p.Fset.Position(call.Pos())
+				key := name + fmt.Sprint(isBool)
+				if !seen[key] {
+					seen[key] = true
+					goFlagCache = append(goFlagCache, goFlag{name, isBool, fmt.Sprintf("%s:%d", pos.Filename, pos.Line)})
+				}
+				return true
+			})
+		}
+	}
+	sort.Slice(goFlagCache, func(i, j int) bool { return goFlagCache[i].name < goFlagCache[j].name })
+	frameTrustedUsed["go command flag tables: extracted on this run from GOROOT/src/cmd/go/internal/{work,base,test,run} (calls on flag.FlagSet: BoolVar/Bool/BoolFunc and Var with IsBoolFlag are boolean)"] = true
+	return goFlagCache, nil
+}
+
+// tableEntries evaluates a package-level map[string]bool composite literal.
+func (u *Universe) tableEntries(name string) (map[string]bool, string, error) {
+	p := u.mainPkg()
+	obj, _ := p.Types.Scope().Lookup(name).(*types.Var)
+	if obj == nil {
+		return nil, "", fmt.Errorf("table %s not found", name)
+	}
+	for _, f := range p.Syntax {
+		for _, d := range f.Decls {
+			gd, ok := d.(*ast.GenDecl)
+			if !ok {
+				continue
+			}
+			for _, sp := range gd.Specs {
+				vs, ok := sp.(*ast.ValueSpec)
+				if !ok {
+					continue
+				}
+				for i, id := range vs.Names {
+					if p.TypesInfo.Defs[id] != obj || i >= len(vs.Values) {
+						continue
+					}
+					lit, ok := vs.Values[i].(*ast.CompositeLit)
+					if !ok {
+						return nil, "", fmt.Errorf("table %s is not a composite literal", name)
+					}
+					m := map[string]bool{}
+					for _, el := range lit.Elts {
+						kv := el.(*ast.KeyValueExpr)
+						k, v := p.TypesInfo.Types[kv.Key], p.TypesInfo.Types[kv.Value]
+						if k.Value == nil || v.Value == nil {
+							return nil, "", fmt.Errorf("table %s has a non-constant entry", name)
+						}
+						m[constant.StringVal(k.Value)] = constant.BoolVal(v.Value)
+					}
+					pos := u.fset.Position(vs.Pos())
+					return m, fmt.Sprintf("%s:%d", pos.Filename, pos.Line), nil
+				}
+			}
+		}
+	}
+	return nil, "", fmt.Errorf("table %s has no initialiser", name)
+}
+
+func (u *Universe) groundGoFlagTables() []FrameResult {
+	props := []string{"C20"}
+	fail := func(name, d string) []FrameResult {
+		return []FrameResult{{Name: name, OK: false, Detail: d, Props: props, Backend: "ground"}}
+	}
+	flags, err := u.goCommandFlags()
+	if err != nil {
+		return fail("ground:table-booleanFlags", "cannot load cmd/go sources: "+err.Error())
+	}
+	boolTab, where, err := u.tableEntries("booleanFlags")
+	if err != nil {
+		return fail("ground:table-booleanFlags", err.Error())
+	}
+	var res []FrameResult
+	// (1) every boolean go flag is in booleanFlags; (2) no non-boolean go flag is.
+	goBool, goNonBool := map[string]bool{}, map[string]bool{}
+	for _, f := range flags {
+		if f.isBool {
+			goBool[f.name] = true
+		} else {
+			goNonBool[f.name] = true
+		}
+	}
+	var missing, wrong []string
+	for n := range goBool {
+		if goNonBool[n] {
+			continue // registered both ways by different commands (-json for build vs test): ambiguous, skip
+		}
+		if !boolTab[n] {
+			missing = append(missing, n)
+		}
+	}
+	for n, v := range boolTab {
+		if v && goNonBool[n] && !goBool[n] {
+			wrong = append(wrong, n)
+		}
+		if !v {
+			wrong = append(wrong, n+"(false entry)")
+		}
+	}
+	sort.Strings(missing)
+	sort.Strings(wrong)
+	r := FrameResult{Name: "ground:table-booleanFlags", OK: len(missing) == 0 && len(wrong) == 0, Props: props, Backend: "ground",
+		Detail: fmt.Sprintf("booleanFlags at %s: %d entries; go command: %d boolean flags, %d value flags; missing=%v wrongly-boolean=%v", where, len(boolTab), len(goBool), len(goNonBool), missing, wrong)}
+	if !r.OK {
+		if len(missing) > 0 {
+			r.Witness = fmt.Sprintf("splitFlagsFromArgs([%q, \"./pkg\"]) takes ./pkg for the flag's value", missing[0])
+		} else {
+			r.Witness = fmt.Sprintf("splitFlagsFromArgs([%q, \"value\", \"./pkg\"]) treats the value as a package", wrong[0])
+		}
+	}
+	res = append(res, r)
+	// forwardBuildFlags
+	fwd, where2, err := u.tableEntries("forwardBuildFlags")
+	if err != nil {
+		return append(res, fail("ground:table-forwardBuildFlags", err.Error())...)
+	}
+	// flags that garble sets itself or that must not reach the nested go list
+	notForwarded := map[string]string{
+		"-a": "nested listing must not rebuild", "-n": "dry run", "-x": "tracing", "-v": "verbosity",
+		"-trimpath": "always set by garble", "-toolexec": "always set by garble", "-buildvcs": "always set by garble",
+		"-json": "output format only", "-o": "output path, not a build input of packages",
+		"-debug-actiongraph": "debug output", "-debug-runtime-trace": "debug output", "-debug-trace": "debug output",
+	}
+	buildFlags := u.goBuildFlagNames(flags)
+	var notTrue, shouldBeFalse []string
+	for _, n := range buildFlags {
+		if _, skip := notForwarded[n]; skip {
+			if fwd[n] {
+				shouldBeFalse = append(shouldBeFalse, n)
+			}
+			continue
+		}
+		if !fwd[n] {
+			notTrue = append(notTrue, n)
+		}
+	}
+	sort.Strings(notTrue)
+	r2 := FrameResult{Name: "ground:table-forwardBuildFlags", OK: len(notTrue) == 0 && len(shouldBeFalse) == 0, Props: props, Backend: "ground",
+		Detail: fmt.Sprintf("forwardBuildFlags at %s: %d entries; %d go build flags; not-forwarded=%v forwarded-but-garble-sets-it=%v", where2, len(fwd), len(buildFlags), notTrue, shouldBeFalse)}
+	if !r2.OK && len(notTrue) > 0 {
+		r2.Witness = fmt.Sprintf("garble build %s=... lists packages without that flag", notTrue[0])
+	}
+	res = append(res, r2)
+	return res
+}
+
+// goBuildFlagNames: flags registered in cmd/go/internal/work (AddBuildFlags,
+// AddCoverFlags) and cmd/go/internal/base (AddBuildFlagsNX, AddChdirFlag, AddModCommonFlags).
+func (u *Universe) goBuildFlagNames(flags []goFlag) []string {
+	var out []string
+	seen := map[string]bool{}
+	for _, f := range flags {
+		if (strings.Contains(f.where, "/internal/work/build.go") || strings.Contains(f.where, "/internal/base/flag.go")) && !seen[f.name] {
+			if f.name == "-coverprofile" {
+				continue // only registered for go test
+			}
+			seen[f.name] = true
+			out = append(out, f.name)
+		}
+	}
+	sort.Strings(out)
+	return out
+}
+
+// groundGarbleFlagRegexp: rxGarbleFlag must recognise exactly garble's own
+// flags, at the start of an argument.
+func (u *Universe) groundGarbleFlagRegexp() FrameResult {
+	r := FrameResult{Name: "ground:rxGarbleFlag-shape", Props: []string{"C20"}, Backend: "ground"}
+	p := u.mainPkg()
+	// flags registered on flagSet in init()
+	var names []string
+	var pattern string
+	for _, f := range p.Syntax {
+		ast.Inspect(f, func(n ast.Node) bool {
+			switch n := n.(type) {
+			case *ast.CallExpr:
+				sel, ok := n.Fun.(*ast.SelectorExpr)
+				if !ok {
+					return true
+				}
+				if id, ok := sel.X.(*ast.Ident); ok && id.Name == "flagSet" {
+					switch sel.Sel.Name {
+					case "BoolVar", "StringVar", "Var", "IntVar":
+						if tv, ok := p.TypesInfo.Types[n.Args[1]]; ok && tv.Value != nil {
+							names = append(names, constant.StringVal(tv.Value))
+						}
+					}
+				}
+			case *ast.ValueSpec:
+				for i, id := range n.Names {
+					if id.Name == "rxGarbleFlag" && i < len(n.Values) {
+						if call, ok := n.Values[i].(*ast.CallExpr); ok && len(call.Args) == 1 {
+							if tv, ok := p.TypesInfo.Types[call.Args[0]]; ok && tv.Value != nil {
+								pattern = constant.StringVal(tv.Value)
+							}
+						}
+					}
+				}
+			}
+			return true
+		})
+	}
+	sort.Strings(names)
+	if pattern == "" || len(names) == 0 {
+		r.Detail = "rxGarbleFlag or the flagSet registrations were not found"
+		return r
+	}
+	re, err := syntax.Parse(pattern, syntax.Perl)
+	if err != nil {
+		r.Detail = "pattern does not parse: " + err.Error()
+		return r
+	}
+	re = re.Simplify()
+	// decision by evaluation over the finite set that matters: the pattern must
+	// match "-f" and "-f=v" (and "--f") for each garble flag f, and must not match a value that
+	// merely contains such a text, nor other flags.
+	prog, err := syntax.Compile(re)
+	_ = prog
+	if err != nil {
+		r.Detail = err.Error()
+		return r
+	}
+	anchored := strings.HasPrefix(pattern, "^")
+	var bad []string
+	match := func(s string) bool { return matchRegexp(pattern, s) }
+	for _, n := range names {
+		for _, form := range []string{"-" + n, "-" + n + "=x", "--" + n, "--" + n + "=x"} {
+			if !match(form) {
+				bad = append(bad, "does not reject "+form)
+			}
+		}
+		for _, val := range []string{"app-" + n, "x-" + n + "=y", "-X=main.v=a-" + n, "-o=out-" + n, "./dir-" + n} {
+			if match(val) {
+				bad = append(bad, "rejects the value/argument "+val)
+			}
+		}
+	}
+	for _, other := range []string{"-race", "-tags", "-o", "-ldflags", "-debug-actiongraph", "-debug-trace=x", "-seedling", "-tinyfoo"} {
+		if match(other) {
+			bad = append(bad, "rejects the go flag "+other)
+		}
+	}
+	r.OK = len(bad) == 0
+	r.Detail = fmt.Sprintf("pattern %q, anchored=%v, garble flags %v: %s", pattern, anchored, names, strings.Join(bad, "; "))
+	if !r.OK {
+		r.Witness = bad[0]
+	}
+	return r
+}
+
+// groundGlobalInit: a package-level variable is initialised by the given
+// expression text and never assigned anywhere in the package.
+func (u *Universe) groundGlobalInit(name, wantInit string, props []string) FrameResult {
+	r := FrameResult{Name: "ground:init-" + name, Props: props, Backend: "ground"}
+	p := u.mainPkg()
+	obj := p.Types.Scope().Lookup(name)
+	if obj == nil {
+		r.Detail = "variable not found"
+		return r
+	}
+	var got string
+	written := false
+	for _, f := range p.Syntax {
+		ast.Inspect(f, func(n ast.Node) bool {
+			switch n := n.(type) {
+			case *ast.ValueSpec:
+				for i, id := range n.Names {
+					if p.TypesInfo.Defs[id] == obj && i < len(n.Values) {
+						got = types.ExprString(n.Values[i])
+					}
+				}
+			case *ast.AssignStmt:
+				for _, l := range n.Lhs {
+					if id, ok := ast.Unparen(l).(*ast.Ident); ok && p.TypesInfo.ObjectOf(id) == obj {
+						written = true
+					}
+				}
+			case *ast.UnaryExpr:
+				if n.Op == token.AND {
+					if id, ok := ast.Unparen(n.X).(*ast.Ident); ok && p.TypesInfo.ObjectOf(id) == obj {
+						written = true
+					}
+				}
+			}
+			return true
+		})
+	}
+	r.OK = got == wantInit && !written
+	r.Detail = fmt.Sprintf("%s = %s (expected %s), assigned elsewhere: %v", name, got, wantInit, written)
+	return r
+}
